@@ -177,7 +177,7 @@ def report(ctx, recs, rejects):
         if clause == "drift":       # allowed by the statement, different from the transcription of bins.py: a note, never a verdict
             ctx.extra["alg_drift"] = ctx.extra.get("alg_drift", 0) + 1
             continue
-        ctx.violation({"s": c["s"], "e": c["e"], "fmt": c["fmt"], "moved_by": c.get("moved_by", 0), "synthesized": c.get("synthesized")}, clause,
+        ctx.violation({"s": c["s"], "e": c["e"], "fmt": c["fmt"], "moved_by": c.get("moved_by", 0), "synthesized": c.get("synthesized") or ""}, clause,
                       {"observed": {k: c[k] for k in ("isint", "one", "runs", "fbin", "dbbin")}})
 
 
@@ -269,7 +269,7 @@ def replay(ctx, rec):
     if c.get("moved_by"):
         o = stored_bins_after_transform([{"s": c["s"] - c["moved_by"], "e": c["e"] - c["moved_by"]}], c["moved_by"])
         return any(cl != "drift" for _, cl in judge(ctx, o, "replay"))
-    o = observe(c)
+    o = observe({"s": c["s"], "e": c["e"], "fmt": c["fmt"]})
     if o["fmt"] == "gff" and 1 <= o["s"] <= o["e"]:
         stored_bins([o])
     return any(cl != "drift" for _, cl in judge(ctx, [o], "replay"))
